@@ -187,4 +187,4 @@ def run_shard(ctx):
     except ImportError:
         c07 = None
     if c07 is not None and hasattr(c07, "serial_stage"):
-        c07.serial_stage(ctx, 48 if ctx.tier == "quick" else 1200)
+        c07.serial_stage(ctx, 240 if ctx.tier == "quick" else 2400)
